@@ -36,14 +36,12 @@ Let md_lookup_nil : forall d f, md_fine d -> do_lookup mdf_ops d f [] = [].
 Proof. intros d f H. apply mdf_ok_lookup. now apply md_fine_ok. Qed.
 Let md_text : forall d f k p, md_fine d -> In p (do_lookup mdf_ops d f k) -> fst p <> [].
 Proof. intros d f k p. apply mdf_fine_text. Qed.
-Let md_freq : forall d f k p, md_fine d -> In p (do_lookup mdf_ops d f k) -> (snd p < 4000000000)%N.
-Proof. intros d f k p. apply mdf_fine_freq. Qed.
 
 Lemma e_fine_step e o : op_fine o -> EInv e -> fine (step mdf_ops lay_ops conv e o).
 Proof.
   intros Ho Hi.
   exact (fine_step mdf_ops lay_ops conv md_fine md_lookup_nil mdf_fine_add mdf_fine_update ss0 ss0_good ss0_fresh
-                   md_text md_freq conv_tiles e o Ho Hi).
+                   md_text conv_tiles e o Ho Hi).
 Qed.
 
 Lemma e_step_inv e o e' : op_fine o -> EInv e -> step mdf_ops lay_ops conv e o = Ok e' -> EInv e'.
